@@ -56,6 +56,7 @@ def conclude(pid, P, args, seed, results, wall, known, baseline):
     assumptions = []
     samples = []
     solver_time = {}
+    stability = {}
     cmds = []
     evaluations = 0
     nontrivial = 0
@@ -95,6 +96,8 @@ def conclude(pid, P, args, seed, results, wall, known, baseline):
         for a in r.get('assumptions', []):
             assumptions.append(f"[{r['unit']}] {a['kind']}: {a['text']}")
         solver_time[r['unit']] = round(r.get('smt_s', 0.0), 3)
+        if r.get('stability'):
+            stability[r['unit']] = r['stability']
         if r.get('cmd'):
             cmds.append(r['cmd'])
         if eng == 'bounded':
@@ -186,6 +189,7 @@ def conclude(pid, P, args, seed, results, wall, known, baseline):
         by_backend=by_backend,
         functions_under_contract=functions,
         solver_time_s=solver_time,
+        proof_stability=stability,
         checker_cmd=' && '.join(sorted(set(cmds)))[:4000] or f"./check {pid} --tier {tier}",
         trusted_base=TRUSTED_BASE,
         rewrites_applied=rewrites,
